@@ -113,6 +113,20 @@ def z_local_to_utc(tab, o, r):
     return exactly_one, uo, ur, uoff
 
 
+def z_local_count(tab, o, r, k):
+    """the wall clock (o, r) occurs exactly k times in the zone (0: inside a gap, 2: repeated)"""
+    conds = []
+    for i, (t, off) in enumerate(tab):
+        uo, ur = _shift(o, r, -off)
+        to, tr = _pair(t)
+        c = dates.z_lex_le(z3.IntVal(to), z3.IntVal(tr), uo, ur) if i else z3.BoolVal(True)
+        if i + 1 < len(tab):
+            no, nr = _pair(tab[i + 1][0])
+            c = z3.And(c, dates.z_lex_lt(uo, ur, z3.IntVal(no), z3.IntVal(nr)))
+        conds.append(c)
+    return z3.PbEq([(c, 1) for c in conds], k)
+
+
 def local_to_utc_native(tab, w):
     """concrete twin of z_local_to_utc: (ok, utc datetime, offset)"""
     hits = []
